@@ -44,15 +44,20 @@ while todo or running:
     p.wait()
     r = json.load(open(out))
     os.remove(out)
-    for v in r["violations"]:
+    for v in r["violations"] + [{"key": k.split("|", 1)[1], "what": None} for k in r.get("violation_keys", []) if k.startswith("C17|")]:
         fl, cls, scen, kinds, sig = v["key"].split(" ## ")
+        # keyed on the explored three-call scenario itself; the class is that of its locally minimal failing part
+        if (fl, cls) in classes:
+            e = classes[(fl, cls)]
+            e.setdefault("larger", {})
+        else:
+            e = larger.setdefault((fl, cls), {"scenarios": {}, "larger": {}, "kinds": set(), "example": None})
         if sig.startswith("sig="):
-            assert (fl, cls) in classes and classes[(fl, cls)]["scenarios"].get(scen) == "%s ## %s" % (kinds, sig), "a reduced 2x1 scenario is missing from phase 1: " + v["key"]
-            continue
-        e = larger.setdefault((fl, cls), {"larger": {}, "kinds": set(), "example": None})
-        e["larger"][scen] = kinds
+            e["scenarios"][scen] = "%s ## %s" % (kinds, sig)
+        else:
+            e["larger"][scen] = kinds
         e["kinds"].update(kinds.split("+"))
-        if e["example"] is None or len(scen) < len(e["example"][0]):
+        if v["what"] and (fl, cls) in larger and (e["example"] is None or len(scen) < len(e["example"][0])):
             e["example"] = (scen, v["what"])
 path = os.path.join(ROOT, "known_findings.json")
 k = json.load(open(path))
@@ -63,15 +68,17 @@ for (fl, cls), e in sorted(classes.items()):
         "what": "[%s] %s: %s in some schedules (%d initial-edge variants listed); multi-lock operations are sequences of per-node critical sections, not atomic. Example: %s" % (
             fl, cls, " and ".join(sorted(e["kinds"])), len(e["scenarios"]), e["example"][1][:420]),
         "scenarios": dict(sorted(e["scenarios"].items())),
+        **({"larger": dict(sorted(e["larger"].items())), "explored_with": {"shapes": "1+1:2 whole space; " + LARGER_SHAPES + " whole space", "budget": "500000; " + LARGER_BUDGET}} if e.get("larger") else {}),
     })
 for (fl, cls), e in sorted(larger.items()):
     k["findings"].append({
         "property": "C17", "status": "open", "key": "%s ## %s" % (fl, cls),
         "what": "[%s] %s: %s in some schedules although every cross-thread pair of these calls is serialisable on its own (%d initial-edge variants listed); multi-lock operations are not atomic across their two nodes. Example: %s" % (
-            fl, cls, " and ".join(sorted(e["kinds"])), len(e["larger"]), e["example"][1][:420]),
+            fl, cls, " and ".join(sorted(e["kinds"])), len(e["larger"]) + len(e["scenarios"]), (e["example"] or ("", ""))[1][:420]),
+        "scenarios": dict(sorted(e["scenarios"].items())),
         "larger": dict(sorted(e["larger"].items())),
         "explored_with": {"shapes": LARGER_SHAPES, "budget": LARGER_BUDGET},
     })
 json.dump(k, open(path, "w"), indent=1)
-print("larger classes:", len(larger), "scenarios:", sum(len(e["larger"]) for e in larger.values()))
+print("larger classes:", len(larger), "scenarios:", sum(len(e["larger"]) + len(e["scenarios"]) for e in larger.values()), "three-call scenarios filed under pair classes:", sum(len(e.get("larger", {})) for e in classes.values()))
 print("classes:", len(classes), "scenarios:", sum(len(e["scenarios"]) for e in classes.values()))
